@@ -232,6 +232,7 @@ def _r34b(chk, repo) -> None:
                     if p and _from_config(cfg, e.comparators[0], n, "large_file_skip_byte_limit"):
                         cmps.append((n, e, p))
     chk.count("R34b.size_comparisons", len(cmps))
+    _r34b_limit_source(chk, L, cfg, reads)
     for wst, c, p in reads:
         mine = [(n, e) for n, e, q in cmps if q == p]
         if not chk.require(bool(mine), "R34b", c, f"no comparison of the size of `{p}` with large_file_skip_byte_limit precedes reading it", detail="byte-limit comparison exists"):
@@ -251,6 +252,30 @@ def _r34b(chk, repo) -> None:
             chk.require(bt is not None and not cfg.reaches(bt, wst), "R34b", n, "an over-limit file is still read: the over-limit branch does not leave the loader", detail="over-limit branch cannot reach the read")
             rs = [x for s in n.body for x in [s] + list(walk_local(s)) if isinstance(x, ast.Raise) and x.exc is not None and _is_skip(x.exc.func if isinstance(x.exc, ast.Call) else x.exc)]
             chk.require(bool(rs), "R34b", n, "the over-limit branch does not raise SQLFluffSkipFile", detail="over-limit branch raises SQLFluffSkipFile")
+
+
+def _r34b_limit_source(chk, L, cfg, reads) -> None:
+    """The byte limit that decides about a file must be read from that file's own config
+    (the child config built for its path: nested .sqlfluff files may lower the limit), not
+    from the run-wide root config the loader was handed."""
+    gets = [c for c in calls_in(L) if last_attr(c) == "get" and isinstance(c.func, ast.Attribute) and c.args and const(c.args[0]) == "large_file_skip_byte_limit"]
+    chk.count("R34b.limit_reads", len(gets))
+    read_params = {p for _, _, p in reads}
+    for g in gets:
+        recv = g.func.value
+        st = cfg.stmt_of(g)
+        os_ = origins(cfg, recv, st) if isinstance(recv, ast.Name) else []
+        ok = bool(os_) and all(
+            o.kind == "expr" and not o.path and isinstance(o.expr, ast.Call) and last_attr(o.expr) == "make_child_from_path"
+            and o.expr.args and param_of(cfg, o.expr.args[0], o.stmt) in read_params
+            for o in os_
+        )
+        chk.require(
+            ok, "R34b", g,
+            f"the byte limit is read from `{norm(recv)}`, which is not the per-file config built by make_child_from_path(<file>): a stricter "
+            "limit set in a nested config file is ignored and the over-limit file is parsed (and fixed)",
+            detail="byte limit read from the file's own config",
+        )
 
 
 def _size_of_param(cfg, e, at) -> Optional[str]:
@@ -753,7 +778,7 @@ def _r34d(chk, repo) -> None:
                     own = [g for g in cfg.guards(n) if isinstance(g.stmt, (ast.If, ast.While))]
                     skip = cfgatom = False
                     other = False
-                    first = None
+                    tested = []  # statements of the guards that test one of the two atoms
                     for g in own:
                         for e0, p0 in atoms(g.stmt.test, g.polarity):
                             if (norm(e0), p0) in shared:
@@ -766,8 +791,10 @@ def _r34d(chk, repo) -> None:
                                 else:
                                     other = True
                                     continue
-                                if first is None:
-                                    first = g.stmt
+                                if g.stmt not in tested:
+                                    tested.append(g.stmt)
+                    # the outermost of them (guards() gives no order): the one dominating the others
+                    first = next((t for t in tested if all(t is u or cfg.dominates(t, u) for u in tested)), None)
                     if skip and cfgatom and not other and first is not None:
                         out.append((n, first))
                 return out
@@ -882,6 +909,18 @@ SQLMESH = "plugins/sqlfluff-templater-sqlmesh/sqlfluff_templater_sqlmesh/templat
 CMD = "src/sqlfluff/cli/commands.py"
 
 VARIANTS = [
+    Variant(
+        "byte-limit-from-root-config", LINTER,
+        "        limit = file_config.get(\"large_file_skip_byte_limit\")\n",
+        "        limit = root_config.get(\"large_file_skip_byte_limit\")\n",
+        "R34b", "load_raw_file_and_config", "seeded C34-1: nested config limit ignored",
+    ),
+    Variant(
+        "quiet-byte-limit-config-renamed", LINTER,
+        "        limit = file_config.get(\"large_file_skip_byte_limit\")\n",
+        "        cfg_for_this_file = file_config\n        limit = cfg_for_this_file.get(\"large_file_skip_byte_limit\")\n",
+        "QUIET", None, "per-file config read through an alias",
+    ),
     Variant(
         "render-skip-handler-exits-success", CMD,
         "                click.echo(formatter.colorize(str(skip_file_err), Color.red), err=True)\n                sys.exit(EXIT_FAIL)\n",
